@@ -41,7 +41,7 @@ def plan(tier):
                 'observation with the twins "k requests applied"; a cell is (operation, position, crash class, outcome)'
                 % len(OPS),
         'min_monitor': {'full_observations': 300, 'crash_points': 1500, 'deaths_confirmed': 1500, 'recoveries_compared': 1500,
-                        'acks_verified': 300, 'outcome_applied': 50, 'outcome_absent': 200, 'startup_deaths': 60},
+                        'acks_verified': 300, 'outcome_applied': 50, 'outcome_absent': 200, 'startup_deaths': 60, 'storage_fault_points': 15},
         'assumptions': ['death inside a syscall, torn writes and power loss cannot be produced here',
                         'server-generated key bytes are masked when observations are compared',
                         'rows orphaned in child tables by a completed Destroy are not observable and not asserted'],
@@ -54,6 +54,8 @@ def cases(tier, seed):
         for pos in (0, 1):
             cs.append({'op': op, 'pos': pos, 'cls': 'sql'})
             cs.append({'op': op, 'pos': pos, 'cls': 'line'})
+    # a transient storage fault instead of a crash: the COMMIT of the operation finds the database locked by a reader
+    cs += [{'op': op, 'pos': 1, 'cls': 'busy'} for op in OPS]
     n = 6 if tier == 'quick' else 48
     cs += [{'kill': i} for i in range(n)]
     # death while the server starts: on a database file that does not exist yet, on an empty file, on a store in use
@@ -429,6 +431,48 @@ def run_case(ctx, case):
                 return
         if case['cls'] == 'sys':
             return run_syscalls(ctx, case, d, base, env, twins, main_index, base_max)
+        if case['cls'] == 'busy':
+            # no death at all: another connection is reading the file while the operation commits.  Whatever the server
+            # answers, after a restart the store shows the operation iff it was acknowledged, and shows it whole.
+            work = d + '/work.sqlite'
+            shutil.copyfile(base, work)
+            srv = rig.Server(work)
+            acks = []
+            try:
+                for i, (v, ops, ident) in enumerate(seq):
+                    if i == main_index:
+                        with rig.busy_reader(srv):
+                            r = srv.send(ops, ident, v)
+                    else:
+                        r = srv.send(ops, ident, v)
+                    acks.append('E' if r.error is not None else ('S' if r.ok() else 'F'))
+            finally:
+                srv.close()
+            ctx.ev()
+            ctx.count('storage_fault_points')
+            rec, problems = observe(work, base_max)
+            ctx.count('full_observations')
+            detail = {'case': case, 'acks': acks}
+            if rec is None or problems:
+                ctx.violation('%s|busy|unreadable' % case['op'], 'after a COMMIT that met a locked database the store cannot be fully read: %s'
+                              % (problems or ['?'])[:3], detail)
+                return
+            ctx.count('recoveries_compared')
+            want = twins[2] if acks[main_index] == 'S' else twins[1]
+            if acks[0] != 'S':
+                ctx.unsure('the companion request of %s was not acknowledged (%s)' % (case['op'], acks))
+                return
+            if obs_equal(rec, want):
+                ctx.count('outcome_applied' if acks[main_index] == 'S' else 'outcome_absent')
+                ctx.count('acks_verified', 1 + (acks[main_index] == 'S'))
+                ctx.cell(case['op'], case['pos'], 'busy', 'applied' if acks[main_index] == 'S' else 'absent')
+            else:
+                other = twins[1] if acks[main_index] == 'S' else twins[2]
+                outcome = ('lost-ack' if acks[main_index] == 'S' else 'unreported-effect') if obs_equal(rec, other) else 'partial'
+                ctx.violation('%s|busy|%s' % (case['op'], outcome), 'the COMMIT of %s met a database locked by a reader; the request was answered %s '
+                              'and after a restart the store differs from "%s" in %s' % (case['op'], acks[main_index],
+                                                                                        'applied' if acks[main_index] == 'S' else 'not applied', obs_diff(rec, want)), detail)
+            return
         # dry run: count events
         dry = d + '/dry.sqlite'
         shutil.copyfile(base, dry)
